@@ -53,7 +53,7 @@ def write_table(rows, path, sep="\t", columns=None):
             fh.write(sep.join(str(r[c]) for c in cols) + "\n")
 
 
-def make_clusters(rng, rows, n_clusters, outlier_prob_col=None):
+def make_clusters(rng, rows, n_clusters, outlier_prob_col=None, prev_col="cellular_prevalence"):
     """Cluster file rows (PyClone-VI style: integer cluster ids, one row per mutation and sample)."""
     muts = []
     for r in rows:
@@ -67,8 +67,10 @@ def make_clusters(rng, rows, n_clusters, outlier_prob_col=None):
         assign[m] = ids[int(rng.integers(0, n_clusters))]
     out = []
     for r in rows:
-        row = {"mutation_id": r["mutation_id"], "sample_id": r["sample_id"], "cluster_id": assign[r["mutation_id"]],
-               "cellular_prevalence": 0.5}
+        row = {"mutation_id": r["mutation_id"], "sample_id": r["sample_id"], "cluster_id": assign[r["mutation_id"]]}
+        if prev_col is not None:
+            # PyClone-VI calls the column cellular_prevalence, PhyClone's README calls it ccf
+            row[prev_col] = 0.5
         if outlier_prob_col is not None:
             row["outlier_prob"] = outlier_prob_col[assign[r["mutation_id"]] % len(outlier_prob_col)]
         out.append(row)
